@@ -405,6 +405,8 @@ def check(run):
     gen(run)
     trace(run)
     env_independence(run)
+    from harness.props import e2pw
+    e2pw.check(run)            # the whole pipeline: a file replaced under its path, the Parser, the written class file, executors (spec/E2PW.tla)
 
 
 def replay(run, case):
